@@ -355,6 +355,133 @@ fn any_sop() -> StringOp { vsym!(w_sop: u8); let t: [StringOp; 10] = [movs_byte,
     return '\n'.join(L) + '\n'
 
 
+def sentence_expansions(g, nt, leaves, depth=0, memo=None):
+    """every derivation of `nt` whose productions consist of quoted terminals and (recursively) such
+    nonterminals, with non-fallible actions: list of (rust statements, result variable, tokens).
+    The statements evaluate the actions bottom-up, children before parent, left to right -- the order
+    in which the LR parser reduces them.  Used for sentence-driven harnesses that follow the grammar
+    even when productions are split, merged or renamed."""
+    memo = memo if memo is not None else {}
+    if nt in memo:
+        return memo[nt]
+    if depth > 6 or nt not in g.by_lhs:
+        return None
+    params = grammar_params(g)
+    call_args = ', '.join(n for n, _ in params)
+    out = []
+    for p in g.by_lhs[nt]:
+        if p.action not in g.sigs or g.sigs[p.action][1].startswith('Result<'):
+            return None
+        parts = []
+        for s in p.syms:
+            if gram.is_terminal(s):
+                if s.startswith('r#'):
+                    return None
+                parts.append([('', json.dumps(gram.term_text(s)), [gram.term_text(s)])])
+            else:
+                sub = sentence_expansions(g, s, leaves, depth + 1, memo)
+                if sub is None:
+                    return None
+                parts.append(sub)
+        import itertools
+        for combo in itertools.product(*parts):
+            stmts, args, toks = '', [], []
+            for k, (st, var, tk) in enumerate(combo):
+                stmts += st
+                args.append('(0, %s, 0)' % var)
+                toks += tk
+            v = '__v%d_%d' % (p.action, len(out))
+            stmts += 'let %s = __action%d(%s%s);\n' % (v, p.action, call_args, ''.join(', ' + a for a in args))
+            out.append((stmts, v, toks))
+    memo[nt] = out
+    return out
+
+
+def string_sentence_module(g, leaves):
+    """C07, sentence-driven: every sentence of the `string` nonterminal ([rep|repz|repnz] mnemonic width), as
+    the CURRENT grammar derives it, is evaluated bottom-up and re-evaluated while it yields REPEAT; the
+    number of executed iterations is read off the index registers.  Oracle per sentence (from its words):
+    no prefix: one iteration; rep: exactly CX iterations, CX ends 0; repz / repnz: CX decremented once per
+    iteration, stops early only with ZF=0 / ZF=1 after at least one iteration, never runs with CX=0."""
+    exps = sentence_expansions(g, 'string', leaves)
+    if not exps:
+        return None
+    L = ['// GENERATED by lib/gen.py (string_sentence_module)', 'use crate::{vassert, vassume, vcell, vcover, vsym};']
+    rows = []
+    for (st, var, toks) in exps:
+        pre = {'rep': 1, 'repz': 2, 'repnz': 3}.get(toks[0], 0)
+        words = toks[1:] if pre else toks
+        if len(words) != 2 or words[0] not in ('movs', 'lods', 'stos', 'cmps', 'scas') or words[1] not in ('byte', 'word'):
+            return None
+        rows.append((st, var, pre, words[0], 2 if words[1] == 'word' else 1, ' '.join(toks)))
+    n = len(rows)
+    L.append('const SN: usize = %d;' % n)
+    L.append('const S_PREFIX: [u8; %d] = [%s];' % (n, ', '.join(str(r[2]) for r in rows)))
+    L.append('const S_USES_SI: [bool; %d] = [%s];' % (n, ', '.join('true' if r[3] in ('movs', 'lods', 'cmps') else 'false' for r in rows)))
+    L.append('const S_SIZE: [u16; %d] = [%s];' % (n, ', '.join(str(r[4]) for r in rows)))
+    L.append('const S_TEXT: [&str; %d] = [%s];' % (n, ', '.join(json.dumps(r[5]) for r in rows)))
+    L.append('fn eval_sentence(sel: usize, current: usize, vm: &mut VM, context: &mut Context) -> State {\n    let input = "";\n    match sel {')
+    for i, r in enumerate(rows):
+        L.append('        %s => { %s %s }' % (str(i) if i < n - 1 else '_', r[0].replace('\n', ' '), r[1]))
+    L.append('    }\n}')
+    L.append('''// one harness per sentence (the sentence is concrete, the machine state symbolic): a symbolic
+// choice among the 40 sentences with up to 5 rounds each does not finish (probe: > 600 s)
+fn sentences(bound: u16, w_sel: usize) {
+    let mut vm = mk_vm();
+    let mut ctx = mk_ctx();
+    let pre = regs(&vm);
+    vassume!(pre.cx <= bound);
+    let prefix = S_PREFIX[w_sel];
+    let size = S_SIZE[w_sel];
+    let df = pre.flag & 0x400 != 0;
+    let mut rounds: u16 = 0;
+    let mut st = State::REPEAT;
+    while st == State::REPEAT && rounds < bound + 2 {
+        st = eval_sentence(w_sel, CUR, &mut vm, &mut ctx);
+        rounds += 1;
+    }
+    let post = regs(&vm);
+    // iterations executed, read off the index register the instruction steps
+    let (a, b) = if S_USES_SI[w_sel] { (pre.si, post.si) } else { (pre.di, post.di) };
+    let delta = if df { a.wrapping_sub(b) } else { b.wrapping_sub(a) };
+    let n = delta / size;
+    let zf = post.flag & 0x40 != 0;
+    vassert!("C07d.sentence.completes_with_next", st == State::NEXT);
+    vassert!("C07d.sentence.whole_steps", delta % size == 0);
+    match prefix {
+        0 => {
+            vassert!("C07d.sentence.plain_runs_once", n == 1 && post.cx == pre.cx);
+        }
+        1 => {
+            vassert!("C07d.sentence.rep_runs_cx_times", n == pre.cx && post.cx == 0);
+        }
+        _ => {
+            let early = if prefix == 2 { !zf } else { zf };
+            vassert!("C07d.sentence.repcc_count", n <= pre.cx && post.cx == pre.cx - n && (pre.cx == 0 || n >= 1) && (n == pre.cx || early));
+        }
+    }
+    vcover!("C07d.sentence.cover.full_count", prefix == 0 || (pre.cx == bound && n == bound));
+    vcover!("C07d.sentence.cover.early_exit", prefix < 2 || (pre.cx == bound && n == 1));
+    #[cfg(not(kani))]
+    {
+        crate::verif_rt::native::note(format!("sentence {}", S_TEXT[w_sel]));
+    }
+    done_ctx(ctx);
+    done(vm);
+}
+''')
+    names = []
+    for i, r in enumerate(rows):
+        nm = 'c07d_' + re.sub(r'[^a-z0-9]+', '_', r[5])
+        names.append(nm + '__q')
+        L.append('#[cfg_attr(kani, kani::proof)]\n#[cfg_attr(kani, kani::unwind(7))]\npub fn %s__q() { sentences(3, %d); }' % (nm, i))
+        if r[2]:
+            names.append(nm + '__t')
+            L.append('#[cfg_attr(kani, kani::proof)]\n#[cfg_attr(kani, kani::unwind(10))]\npub fn %s__t() { sentences(6, %d); }' % (nm, i))
+    L.append('pub const TABLE: &[(&str, fn())] = &[%s];' % ', '.join('("%s", %s)' % (n, n) for n in names))
+    return '\n'.join(L) + '\n'
+
+
 def make_shim(g, point):
     params = grammar_params(g)
     lines = ['// GENERATED by /verif/lib/gen.py from %s -- do not edit' % os.path.basename(g.path),
@@ -517,6 +644,14 @@ def attach(tree, kf_active):
                 gf.write(spelling_module(g, leaves, grammar_params(g)))
             by_point.setdefault(point, []).append(('prep_zz_spellgen', genf))
         if point == 'interp':
+            sm = string_sentence_module(g, leaves)
+            if sm:
+                genf2 = os.path.join(os.path.dirname(target), 'verif_interp_stringgen.rs')
+                with open(genf2, 'w') as gf:
+                    gf.write(sm)
+                by_point.setdefault(point, []).append(('interp_zy_stringgen', genf2))
+            else:
+                info['skipped']['c07d_sentences__q'] = ['the `string` nonterminal no longer expands to [prefix] mnemonic width sentences']
             genf = os.path.join(os.path.dirname(target), 'verif_interp_totalgen.rs')
             with open(genf, 'w') as gf:
                 gf.write(totality_module(g, leaves))
